@@ -35,7 +35,7 @@ Qed.
 Lemma not_exempt_spec hb written ptr : exempt hb written ptr = false ->
   hb + header_size <= ptr /\ forall a, In a written -> ~ (ptr - header_size <= a < ptr).
 Proof.
-  unfold exempt. intros H. apply orb_false_iff in H as (A & B). apply N.ltb_ge in A. split; [exact A|].
+  unfold exempt, wexempt. intros H. apply orb_false_iff in H as (A & B). apply N.ltb_ge in A. split; [exact A|].
   intros a Ha X. assert (E : existsb (fun a => (ptr - header_size <=? a) && (a <? ptr)) written = true).
   { apply existsb_exists. exists a. split; [exact Ha|]. apply andb_true_iff. split; [apply N.leb_le|apply N.ltb_lt]; lia. }
   congruence.
@@ -75,6 +75,42 @@ Proof.
     destruct (tiles_in _ _ _ _ h2 Hd) as (_ & X & _). pose proof (bsize_ge d). lia.
 Qed.
 
+(* Deallocate touches the memory at most in the eight bytes before the pointer *)
+Lemma dealloc_mem s m ptr r s' m' :
+  dealloc fixed s m ptr = (r, s', m') -> forall a, a < ptr - header_size \/ ptr <= a -> m_data m' a = m_data m a.
+Proof.
+  unfold dealloc. destruct (s_poisoned s); [intros [= <- <- <-]; reflexivity|].
+  destruct (msize m <? s_last s); [intros [= <- <- <-]; reflexivity|].
+  destruct (v_fix_align fixed && negb (ptr mod 8 =? 0)); [intros [= <- <- <-]; reflexivity|].
+  destruct (ptr <? header_size) eqn:L; [intros [= <- <- <-]; reflexivity|]. apply N.ltb_ge in L.
+  destruct (read_header m (ptr - header_size)) as [[l|o]|e]; try (intros [= <- <- <-]; reflexivity).
+  unfold write_header, write_u64. destruct (ptr - header_size + 8 <=? msize m); [|intros [= <- <- <-]; reflexivity].
+  cbn [s_ba]. destruct (s_ba (with_last s (msize m)) <? osize o + header_size);
+    intros [= <- <- <-] a Ha; cbn [m_data]; apply wr8_out; unfold header_size in *; lia.
+Qed.
+
+Lemma dealloc_err_poisons s m ptr e s' m' : dealloc fixed s m ptr = (RErr e, s', m') -> s_poisoned s' = true.
+Proof.
+  unfold dealloc. destruct (s_poisoned s) eqn:P; [intros [= <- <- <-]; exact P|].
+  destruct (msize m <? s_last s); [intros [= <- <- <-]; reflexivity|].
+  destruct (v_fix_align fixed && negb (ptr mod 8 =? 0)); [intros [= <- <- <-]; reflexivity|].
+  destruct (ptr <? header_size); [intros [= <- <- <-]; reflexivity|].
+  destruct (read_header m (ptr - header_size)) as [[l|o]|e']; try (intros [= <- <- <-]; reflexivity).
+  destruct (write_header m (ptr - header_size) (HFree (s_heads (with_last s (msize m)) o))); [|intros [= <- <- <-]; reflexivity].
+  cbn [s_ba with_last]. destruct (s_ba s <? osize o + header_size); [intros [= <- <- <-]; reflexivity|discriminate].
+Qed.
+
+Lemma dealloc_max s m ptr r s' m' : dealloc fixed s m ptr = (r, s', m') -> m_max m' = m_max m.
+Proof.
+  unfold dealloc. destruct (s_poisoned s); [intros [= <- <- <-]; reflexivity|].
+  destruct (msize m <? s_last s); [intros [= <- <- <-]; reflexivity|].
+  destruct (v_fix_align fixed && negb (ptr mod 8 =? 0)); [intros [= <- <- <-]; reflexivity|].
+  destruct (ptr <? header_size); [intros [= <- <- <-]; reflexivity|].
+  destruct (read_header m (ptr - header_size)) as [[l|o]|e]; try (intros [= <- <- <-]; reflexivity).
+  unfold write_header, write_u64. destruct (ptr - header_size + 8 <=? msize m); [|intros [= <- <- <-]; reflexivity].
+  cbn [s_ba]. destruct (s_ba (with_last s (msize m)) <? osize o + header_size); intros [= <- <- <-]; reflexivity.
+Qed.
+
 Definition free_ghost (g : ghost) (ptr pages : N) : ghost :=
   mkGhost (remove_live (g_live g) ptr) (g_shadow g) (g_written g) (g_dead g) (g_void g) pages.
 
@@ -87,7 +123,7 @@ Theorem dealloc_sound s m g ptr :
   s_hb s' = s_hb s.
 Proof.
   intros HI NV r s' m' A. cbn zeta.
-  pose proof HI as [i1 iw i2 i3 i4 i5]. destruct i3 as (Pg1 & Pg2).
+  pose proof HI as [i1 iw il1 il2 i2 i3 i4 i5]. destruct i3 as (Pg1 & Pg2).
   destruct (dealloc_shape _ _ _ _ _ _ A) as (SH & PG & HB). rewrite PG.
   assert (PGOK : (m_pages m <=? max_wasm_pages) = true) by (apply N.leb_le; lia).
   split; [|split; [|exact HB]].
@@ -105,16 +141,23 @@ Proof.
     pose proof (invalid_header_not_occupied s m g B lv ptr S AL LP EX) as X.
     destruct (read_header m (ptr - header_size)) as [[l|o]|e]; try discriminate. contradiction.
   - (* the invariant *)
+    assert (DEADG : forall e, r = RErr e ->
+              (is_live_ptr (g_live g) ptr = true \/ wexempt (g_written g) ptr = false) ->
+              track (s_hb s) g (OFree ptr) (mkObs r (m_pages m)) =
+              mkGhost (g_live g) (g_shadow g) (g_written g) true (g_void g) (m_pages m)).
+    { intros e -> [L|W]; cbn [track o_res o_pages].
+      - now rewrite L.
+      - destruct (is_live_ptr (g_live g) ptr); [reflexivity|]. now rewrite W. }
     destruct (is_live_ptr (g_live g) ptr) eqn:LP.
     + (* a live pointer *)
-      destruct (s_poisoned s) eqn:PO.
-      { unfold dealloc in A. rewrite PO in A. injection A as <- <- <-. right.
-        apply (Inv_fail s m g s m EPoisoned (OFree ptr)); auto; try lia. right. exists ptr. auto. }
-      destruct (i5 eq_refl) as (B & lv & S).
-      assert (FAIL : forall e s1, s_poisoned s1 = true -> (r, s', m') = (RErr e, s1, m) ->
+      assert (FAIL : forall e s1, s_poisoned s1 = true -> s_hb s1 = s_hb s -> (r, s', m') = (RErr e, s1, m) ->
                 g_void (track (s_hb s) g (OFree ptr) (mkObs r (m_pages m))) = true \/
                 Inv s' m' (track (s_hb s) g (OFree ptr) (mkObs r (m_pages m)))).
-      { intros e s1 P1 [= -> -> ->]. right. apply (Inv_fail s m g s1 m e (OFree ptr)); auto; try lia. right. exists ptr. auto. }
+      { intros e s1 P1 Hb E. injection E as E1 E2 E3. subst s' m'. right.
+        apply (Inv_fail s m g s1 m); auto; try lia. apply (DEADG e E1). now left. }
+      destruct (s_poisoned s) eqn:PO.
+      { unfold dealloc in A. rewrite PO in A. symmetry in A. apply (FAIL EPoisoned s); auto. }
+      destruct (i5 eq_refl) as (B & lv & S).
       apply is_live_ptr_spec in LP as (sz & LP).
       destruct (proj1 (st_live _ _ _ _ _ S ptr sz) LP) as (b & Hb & Hl & EP).
       destruct (tiles_in _ _ _ _ (st_tiles _ _ _ _ _ S) Hb) as (T1 & T2 & Oo & T4).
@@ -153,25 +196,36 @@ Proof.
         destruct (st_wr _ _ _ _ _ S a (iw a v Hs)) as (c & Hc & X).
         destruct (payload_not_header _ _ _ _ b _ (st_tiles _ _ _ _ _ S) Hc Hb X); lia.
       * intros a v Hs. exact (iw a v Hs).
+      * intros a Ha. exact (il1 a Ha).
+      * intros q t Hq. cbn [free_ghost g_live] in Hq. apply remove_live_spec in Hq as (Hq & _). exact (il2 q t Hq).
       * cbn [free_ghost g_dead s2 s_poisoned]. exact i2.
       * cbn [m2 m_pages m_max]. split; assumption.
       * reflexivity.
       * intros _. exists B, (lv_set lv (fst b) None). exact S2.
-    + destruct (exempt (s_hb s) (g_written g) ptr) eqn:EX.
-      * left. cbn [track]. rewrite LP, EX. reflexivity.
-      * right. (* an invalid pointer: the call fails and nothing is touched *)
-        assert (FAIL : forall e s1, s_poisoned s1 = true -> (r, s', m') = (RErr e, s1, m) ->
-                  Inv s' m' (track (s_hb s) g (OFree ptr) (mkObs r (m_pages m)))).
-        { intros e s1 P1 [= -> -> ->]. apply (Inv_fail s m g s1 m e (OFree ptr)); auto; try lia. right. exists ptr. auto. }
-        unfold dealloc in A. destruct (s_poisoned s) eqn:PO. { symmetry in A. apply (FAIL EPoisoned s); auto. }
-        destruct (i5 eq_refl) as (B & lv & S).
-        destruct (msize m <? s_last s). { symmetry in A. apply (FAIL EShrunk (poison s)); auto. }
-        cbn [v_fix_align fixed andb] in A. destruct (ptr mod 8 =? 0) eqn:AL; cbn [negb] in A.
-        2:{ symmetry in A. apply (FAIL EInvalidPtr (poison (with_last s (msize m)))); auto. }
-        apply N.eqb_eq in AL.
-        destruct (ptr <? header_size). { symmetry in A. apply (FAIL EInvalidPtr (poison (with_last s (msize m)))); auto. }
-        pose proof (invalid_header_not_occupied s m g B lv ptr S AL LP EX) as X.
-        destruct (read_header m (ptr - header_size)) as [[l|o]|e]; [| contradiction |].
-        -- symmetry in A. apply (FAIL EEmptyHdr (poison (with_last s (msize m)))); auto.
-        -- symmetry in A. apply (FAIL e (poison (with_last s (msize m)))); auto.
+    + destruct (wexempt (g_written g) ptr) eqn:WX.
+      { left. cbn [track]. rewrite LP, WX. reflexivity. }
+      destruct SH as [(-> & PO)|(e & ->)].
+      * (* the call succeeded: the pointer lay below the heap (nothing is demanded any more);
+           otherwise it would be an accepted invalid free, excluded above *)
+        destruct (ptr <? s_hb s + header_size) eqn:BL.
+        -- left. cbn [track o_res]. rewrite LP, WX, BL. reflexivity.
+        -- exfalso. destruct (i5 PO) as (B & lv & S). unfold dealloc in A. rewrite PO in A.
+           destruct (msize m <? s_last s); [discriminate|].
+           cbn [v_fix_align fixed andb] in A. destruct (ptr mod 8 =? 0) eqn:AL; cbn [negb] in A; [|discriminate].
+           apply N.eqb_eq in AL. destruct (ptr <? header_size); [discriminate|].
+           assert (EX : exempt (s_hb s) (g_written g) ptr = false) by (unfold exempt; now rewrite BL, WX).
+           pose proof (invalid_header_not_occupied s m g B lv ptr S AL LP EX) as X.
+           destruct (read_header m (ptr - header_size)) as [[l|o]|e]; try discriminate. contradiction.
+      * (* the call failed: the allocator is poisoned and no guest byte was touched *)
+        right. apply (Inv_fail s m g s' m'); auto.
+        -- exact (dealloc_err_poisons _ _ _ _ _ _ A).
+        -- intros a Ha. destruct (N.lt_ge_cases a (ptr - header_size)) as [L|G]; [apply (dealloc_mem _ _ _ _ _ _ A); now left|].
+           destruct (N.le_gt_cases ptr a) as [L2|G2]; [apply (dealloc_mem _ _ _ _ _ _ A); now right|].
+           exfalso. assert (W : wexempt (g_written g) ptr = true).
+           { unfold wexempt. apply existsb_exists. exists a. split; [exact Ha|].
+             apply andb_true_iff. split; [apply N.leb_le|apply N.ltb_lt]; assumption. }
+           congruence.
+        -- exact (dealloc_max _ _ _ _ _ _ A).
+        -- rewrite PG. lia.
+        -- rewrite PG. apply (DEADG e eq_refl). now right.
 Qed.
